@@ -177,8 +177,18 @@ class FileResolver:
                 glob_part = str(Path(*parts[i:]))
                 break
 
+        tool_ignore = self._get_tool_ignore(root)
         for path in root.glob(glob_part):
             if path.is_file() and self._include_spec.match_file(path.name):
+                # Same filters as directory traversal: excluded directories and ignore rules
+                parent_dirs = [part + "/" for part in path.relative_to(root).parts[:-1]]
+                if any(self._exclude_spec.match_file(d) for d in parent_dirs):
+                    continue
+                if tool_ignore and (
+                    tool_ignore.match_file(path.name)
+                    or any(tool_ignore.match_file(d) for d in parent_dirs)
+                ):
+                    continue
                 if not self._exceeds_max_size(path):
                     yield path
 
